@@ -2204,7 +2204,15 @@ def rule_assign(repo, backend):
         if o.kind != 'return' or o.value is None:
             continue
         v = o.value
-        segs = [s_ for s_ in flatten_add(v) if not (isinstance(s_, ast.List) and not s_.elts)]
+        segs = []
+        for s_ in flatten_add(v):
+            if _is_loopcall(s_) and len(s_.args) == 4 and not (isinstance(s_.args[2], ast.List) and not s_.args[2].elts):
+                # an append loop that continues a list started before it:  [first] ; for ...: stmts.append(...)
+                segs += flatten_add(s_.args[2])
+                segs.append(ast.Call(func=s_.func, args=[s_.args[0], s_.args[1], ast.List(elts=[], ctx=ast.Load()), s_.args[3]], keywords=[]))
+            else:
+                segs.append(s_)
+        segs = [s_ for s_ in segs if not (isinstance(s_, ast.List) and not s_.elts)]
         stmts = []          # (template expr, Elementwise or None)
         okshape = True
         for s_ in segs:
